@@ -4,7 +4,7 @@
     ([sat], [mined_at] arbitrary functions) and every RNG script. *)
 From V.Lib Require Import Base.
 From V.Gen Require Import C18Consts.
-From V.C18 Require Import Model Spec Corr Wf Store ProofsDead ProofsKernel ProofsLife ProofsDrive ProofsRebuild ProofsSeq ProofsStrand ProofsTerm ProofsTotal ProofsSampler ProofsStatus Bridge ProofsStore.
+From V.C18 Require Import Model Spec Corr Wf Store ProofsDead ProofsKernel ProofsLife ProofsDrive ProofsRebuild ProofsSeq ProofsStrand ProofsTerm ProofsTotal ProofsSampler ProofsStatus Bridge ProofsStore StoreFull ProofsStoreFull.
 From Coq Require Import Sorted.
 Local Open Scope Z_scope.
 
@@ -255,6 +255,13 @@ Proof. exact store_roundtrip_txs. Qed.
 Theorem C18_store_roundtrip_needs_id_order :
   exists txs, NoDup (map t_id txs) /\ load_txs (save_txs txs) <> Some txs.
 Proof. exact store_roundtrip_needs_id_order. Qed.
+(** The same for ALL the normalised tables the store writes (parent row, crossing values,
+    preparation inputs / outputs / direct funding, transactions with their PCZT and lock-owner
+    columns, dependency edges, nullifier caches; byte strings as opaque tokens): every state the
+    store can represent reads back equal. *)
+Theorem C18_store_roundtrip_full : forall f, wf_full f -> load_full (save_full f) = Some f.
+Proof. exact store_roundtrip_full. Qed.
+
 Theorem C18_one_live_migration : forall ss,
   let st := fold_left replace_migration ss [] in
   history_terminal st /\ (live_count st <= 1)%nat
